@@ -305,6 +305,23 @@ def r_pure(spec, data):
                     print(f"Denormalize[{lo},{hi}]: inv(apply({x})) = {back}, apply = {float(y['a'])} VIOLATED")
                 bad |= not ok
         return bad
+    if which == "exponential":
+        import jax.numpy as jnp
+        from rex.base import Exponential, Chain, Denormalize
+        bad = False
+        T = Exponential.init()
+        for x in (-20.0, -12.0, -6.0, -1.0, 0.0, 2.5):
+            back = float(T.inv(T.apply({"a": jnp.array(x), "b": None}))["a"])
+            ok = abs(back - x) <= 1e-4 * max(1.0, abs(x))
+            print(f"Exponential: inv(apply({x})) = {back} {'ok' if ok else 'VIOLATED'}")
+            bad |= not ok
+        C = Chain.init(Denormalize.init({"a": jnp.array(-20.0), "b": None}, {"a": jnp.array(-2.0), "b": None}), T)
+        for x in (-1.0, -0.3, 0.4, 1.0):
+            back = float(C.inv(C.apply({"a": jnp.array(x), "b": None}))["a"])
+            ok = abs(back - x) <= 1e-3
+            print(f"Chain(Denormalize[-20,-2], Exponential): inv(apply({x})) = {back} {'ok' if ok else 'VIOLATED'}")
+            bad |= not ok
+        return bad
     if which == "cem_update":
         import jax.numpy as jnp
         from rex.cem import CEMSolver, CEMState, cem_update_mean_stdev
